@@ -61,6 +61,7 @@ func runC01(c *core.Ctx) {
 		c.Rule("R1.18", "the tiers are wired as the orchestrators assume: the accept loop hands the handler of its first constructor to the orchestrator as L1 and of its second as L2; main passes an L1 constructor built from --l1-sock (or the in-memory backend) and an L2 constructor built from --l2-sock, for both ports", 3)
 		runR118(c, "R1.18")
 		c.Share(map[string]string{"R16.4": "R1.17"}, runC16)
+		c.Share(map[string]string{"R7.9": "R1.22"}, runC07) // a request header released twice is handed to two connections: the command executed is not the command sent
 		c.Share(map[string]string{"R8.11": "R1.19"}, runC08) // a get whose terminator is swallowed never completes for the client: a single map always answers END
 		c.Share(map[string]string{"R9.1": "R1.20"}, runC09)  // a tier handed TTL 0 keeps the item for ever: get hits where the map misses, add says exists                   // a set acknowledged with a chunk count the reader does not find is a miss where the map says hit
 		// necessary conditions shared with other properties (same obligations, this property's numbering)
